@@ -58,10 +58,14 @@ class LoadParser(handler.ContentHandler):
         self.data.append(data)
 
     def startElementNS(self, tag, qname, attrs):
-        if tag in self.triggers:
-            self.parse = True
-        if self.doc._parsing != "styles.xml" and tag == (OFFICENS, 'font-face-decls'):
-            self.parse = False
+        # The sections of the document are children of the root element. An
+        # element of the same name further down (an object written inline
+        # as <office:document> has sections of its own) is content
+        if self.level == 0:
+            if tag in self.triggers:
+                self.parse = True
+            if self.doc._parsing != "styles.xml" and tag == (OFFICENS, 'font-face-decls'):
+                self.parse = False
         if self.parse == False:
             return
 
@@ -81,7 +85,9 @@ class LoadParser(handler.ContentHandler):
         except AttributeError as v:
             print ("Error: %s" % v)
 
-        if tag == (OFFICENS, 'automatic-styles'):
+        if self.level > 1:
+            self.parent.addElement(e, check_grammar=False)
+        elif tag == (OFFICENS, 'automatic-styles'):
             e = self.doc.automaticstyles
         elif tag == (OFFICENS, 'body'):
             e = self.doc.body
@@ -112,5 +118,5 @@ class LoadParser(handler.ContentHandler):
         self.data = []
         self.curr = self.curr.parentNode
         self.parent = self.curr
-        if tag in self.triggers:
+        if self.level == 0 and tag in self.triggers:
             self.parse = False
